@@ -250,12 +250,12 @@ type stratum struct {
 }
 
 type Case struct {
-	ID      string
-	Text    string
-	G       *Grammar
-	Stratum string
-	Heavy   bool // gocc is predicted not to terminate on it (nullable repetition/option body)
-	Family  bool // member of the systematic nullable-nesting family
+	ID          string
+	Text        string
+	G           *Grammar
+	Stratum     string
+	NullableRep bool // some reachable repetition has a body that can match the empty string (gocc before 73a37d1 hung on these)
+	Family      bool // member of the systematic nullable-nesting family
 }
 
 type classList []shapeKey
@@ -533,20 +533,23 @@ func familyGrammars(depth int, bothContexts bool) []*Grammar {
 type EnumStats struct {
 	Generated       int            // grammars produced by the strata (before filtering)
 	Duplicates      int            // dropped because the same text was produced before
-	SkippedNullable int            // dropped from the main sweep: some [ ] / { } body is nullable
+	NullableRep     int            // cases of the strata with a nullable repetition body (included since gocc 73a37d1 terminates on them)
+	SkippedNullable int            // the same cases when they are left out (-skip-nullable-bodies)
 	PerStratum      map[string]int // distinct cases kept, per stratum
 }
 
-// predictedHang: the pinned gocc does not terminate when the body of a
-// REPETITION { } can match the empty string, where a reference to a regular
-// definition counts as non-empty (gocc never skips a regular definition) and
-// only productions reachable from a token / ignored token matter. This was
-// determined with the systematic family below: all 56 of its 156 members that
-// satisfy the predicate time out and none of the other 100 does. An OPTION
-// with a nullable body ([ [ 'a' ] ]) terminates.
-func predictedHang(g *Grammar) bool { return g.HasNullableBody(false, true, false) }
+// nullableRepBody: the body of some REPETITION { } reachable from a token or
+// ignored token can match the empty string, where a reference to a regular
+// definition counts as non-empty (gocc never skips a regular definition).
+// gocc before commit 73a37d1 did not terminate on exactly these grammars
+// (determined with the systematic family below: all 56 of its 156 members that
+// satisfy the predicate timed out and none of the other 100 did; an OPTION with
+// a nullable body, [ [ 'a' ] ], always terminated). Since that fix they are
+// ordinary cases of the sweep; the predicate is kept for statistics, for the
+// -skip-nullable-bodies switch and to keep the case set a superset of the old one.
+func nullableRepBody(g *Grammar) bool { return g.HasNullableBody(false, true, false) }
 
-func Enumerate(scope string) ([]Case, EnumStats, error) {
+func Enumerate(scope string, skipNullableRep bool) ([]Case, EnumStats, error) {
 	var strata []*stratum
 	var fam []*Grammar
 	switch scope {
@@ -564,6 +567,10 @@ func Enumerate(scope string) ([]Case, EnumStats, error) {
 	stats := EnumStats{PerStratum: map[string]int{}}
 	seen := map[string]bool{}
 	var cases []Case
+	// add reports whether the grammar counts towards the quota of its stratum.
+	// Grammars with a nullable repetition body never do: they were left out
+	// before gocc 73a37d1, and not counting them keeps every case (and id) of the
+	// earlier scope in the current one.
 	add := func(g *Grammar, stratumName string, family bool) bool {
 		stats.Generated++
 		if err := g.CheckRefs(); err != nil {
@@ -575,16 +582,18 @@ func Enumerate(scope string) ([]Case, EnumStats, error) {
 			stats.Duplicates++
 			return false
 		}
-		heavy := predictedHang(g)
-		if heavy && !family {
-			seen[id] = true
-			stats.SkippedNullable++
-			return false
-		}
+		nrep := nullableRepBody(g)
 		seen[id] = true
+		if nrep && !family {
+			if skipNullableRep {
+				stats.SkippedNullable++
+				return false
+			}
+			stats.NullableRep++
+		}
 		stats.PerStratum[stratumName]++
-		cases = append(cases, Case{ID: id, Text: text, G: g, Stratum: stratumName, Heavy: heavy, Family: family})
-		return true
+		cases = append(cases, Case{ID: id, Text: text, G: g, Stratum: stratumName, NullableRep: nrep, Family: family})
+		return !nrep || family
 	}
 	// the family goes first so that its members are never shadowed by the skip rule
 	famName := "nullable-family"
